@@ -15,6 +15,10 @@ def handle (j : Json) : R Json := do
     | .ok r => pure (Json.mkObj [("ok", jstr r)])
     | .error .notFound => pure (Json.mkObj [("error", "not_found")])
     | .error .ambiguous => pure (Json.mkObj [("error", "ambiguous")])
+  | "glob" =>
+    let pat ← str j "pat"
+    let names ← strList (← obj j "names")
+    pure (Json.mkObj [("selected", Json.arr ((globSelect (chars pat) (names.map chars)).map jstr).toArray)])
   | "class_name" =>
     let c ← str j "cls"
     pure (Json.mkObj [("name", jstr (classTaskName (chars c)))])
